@@ -109,6 +109,8 @@ def make_session_class():
             return True
         def _transport_write(self, data):
             self._S.point('write')
+            if getattr(self._S, 'draining', False):
+                raise OSError('scenario over')       # end of the scheduled run: unblock a worker that would retry forever
             s = self._sock
             s.nwrites += 1
             if s.wfail is not None and s.nwrites > s.wfail[0]:
@@ -271,6 +273,7 @@ class Scenario:
             return 'timeout' if timeout_ok else 'go'
         S.point = free_point
         S.effect = lambda *e: None
+        S.draining = True
         for t in S.threads.values():
             if not t['done']:
                 t['why'] = 'timeout' if t['timeout_ok'] else 'go'
